@@ -76,6 +76,8 @@ def run_shard(desc, ctx):
         fam.append([['foreign', fk], ['reload'], ['meta', fld, 31], ['reload'], ['meta', fld, 32]])
         fam.append([['meta', fld, 33], ['foreign', fk], ['reload'], ['foreign', fk]])
     fam.append([['one_template'], ['subset', 3, 2, 1.0], ['reload'], ['subset', 2, 2, 2.0]])
+    fam.append([['foreign', 'pandas_index'], ['reload'], ['meta', 'group', 41]])
+    fam.append([['foreign', 'comma_tsv'], ['meta', 'quality', 42], ['reload']])
     fam.append([['clusters', 7], ['meta', 'group', 15], ['reload'], ['clusters', 8], ['meta', 'group', 16], ['clusters_back'], ['meta_back', 'group']])
     for j, ops in enumerate(fam):
         for rep in range(2):
@@ -107,7 +109,7 @@ def rand_ops(rng):
             ops.append(['meta', FIELDS[int(rng.integers(0, len(FIELDS)))], int(rng.integers(0, 1 << 30))])
         elif k <= 6:
             ops.append(['foreign', ['valid_tsv', 'valid_csv', 'empty', 'header_only', 'garbage', 'ragged', 'no_cluster_id',
-                                    'cluster_info', 'csv_same_field_late', 'csv_same_field_early', 'comma_tsv'][int(rng.integers(0, 11))]])
+                                    'cluster_info', 'csv_same_field_late', 'csv_same_field_early', 'comma_tsv', 'pandas_index'][int(rng.integers(0, 12))]])
         elif k == 7:
             ops.append(['subset', int(rng.integers(1, 6)), int(rng.integers(1, 4)), [1.0, 1, 2.5][int(rng.integers(0, 3))]])
         elif k == 8:
@@ -129,6 +131,7 @@ FOREIGN = {
     'csv_same_field_late': ('manual_labels.csv', 'cluster_id,quality,other9\n0,CSV,1\n1,CSV,2\n', {'quality': {0: 'CSV', 1: 'CSV'}, 'other9': {0: 1, 1: 2}}),
     'csv_same_field_early': ('a_first.csv', 'cluster_id,my note,other8\n0,CSV,5\n2,CSV,6\n', {'my note': {0: 'CSV', 2: 'CSV'}, 'other8': {0: 5, 2: 6}}),
     'comma_tsv': ('cluster_commas.tsv', 'cluster_id,cfield\n0,1\n3,x y\n', {'cfield': {0: 1, 3: 'x y'}}),       # delimiter sniffed, not the suffix
+    'pandas_index': ('cluster_pandas.tsv', '\tcluster_id\tpfield\n0\t3\tA\n1\t5\tB\n', {'': {3: 0, 5: 1}, 'pfield': {3: 'A', 5: 'B'}}),    # an unnamed index column first (pandas to_csv)
     'no_cluster_id': ('other.csv', 'id,thing\n0,1\n1,2\n', {}),
     'cluster_info': ('cluster_info.tsv', 'cluster_id\tgroup\tquality\n0\tINFO\t999\n1\tINFO\t999\n', {}),
 }
@@ -162,6 +165,13 @@ def _run(case, ctx, d):
         spec.spike_templates[:] = int(rng.integers(0, spec.n_templates))
         spec.spike_clusters = spec.spike_templates.copy()
         case = dict(case, ops=[o for o in case['ops'][1:]])
+    if case['seed'][-1] % 10 == 6 and spec.raw is not None and spec.raw.shape[0] > 40 and not spec.raw_parts:
+        # the raw file ends before the last spikes (accepted at load with a warning): they cannot be in the store
+        cut = int(spec.spike_samples[len(spec.spike_samples) * 2 // 3])
+        if cut > 20:
+            spec.raw = spec.raw[:cut]
+    if case['seed'][-1] % 2 == 0:
+        spec.notes['n_closest_channels'] = 2 + case['seed'][-1] % 3 % 2          # stores whose channel rows are full (no -1 padding)
     if case['seed'][-1] % 3 == 2:
         spec.notes['raw_symlink'] = True         # raw files reached through symbolic links
     wide_ids = opts.get('dtype_ids') == 'uint16'
@@ -341,4 +351,22 @@ def _compare(ctx, desc, f0, spec, ref, m, A, history):
                             break
                 if not ok:
                     V('store_waveforms', 'a store waveform differs from the raw window x factor (shape %r)' % (W.shape,))
+                elif len(sid):
+                    # the same through the model's accessor: the stored channels of one spike in another order, plus a stranger
+                    i0 = len(sid) // 2
+                    own = [c for c in sch[i0].tolist() if c != -1]
+                    for req in (own[::-1], own[1:] + own[:1], own[::-1] + [c for c in range(spec.n_channels) if c not in own][:1]):
+                        if not req:
+                            continue
+                        rw = call(m.get_waveforms, sid[i0:i0 + 1], np.array(req))
+                        if not rw.ok or rw.value is None:
+                            V('store_waveforms', 'get_waveforms on a stored spike raised / returned nothing: %r' % (rw.exc,))
+                            break
+                        got = np.asarray(rw.value)[0]
+                        for j, c in enumerate(req):
+                            if c in own:
+                                e = window(A, spec.spike_samples[int(sid[i0])], nsw, [c])[:, 0].astype(np.float64) * ref['store']['factor']
+                                if got.shape != (nsw, len(req)) or not np.allclose(got[:, j], e, rtol=1e-6, atol=1e-6):
+                                    V('store_waveforms', 'get_waveforms(spike %d, channels %r): column %d is not the stored window of channel %d' % (sid[i0], req, j, c))
+                                    break
     return bool(bad)
